@@ -304,6 +304,8 @@ type Peer struct {
 	GotProvs     []*pb.Message
 	// Requests counts the requests answered so far (BAllThenFail).
 	Requests int
+	// OmitAddrs: this peer names its closer peers by id only (no addresses in its answers).
+	OmitAddrs bool
 }
 
 // World describes the simulated network.
@@ -450,6 +452,9 @@ func (w *World) Answer(to peer.ID, m *pb.Message, proto string) (*pb.Message, er
 		infos := make([]peer.AddrInfo, len(ids))
 		for i, id := range ids {
 			infos[i] = w.info(id)
+			if w.Peers[to] != nil && w.Peers[to].OmitAddrs {
+				infos[i].Addrs = nil
+			}
 		}
 		resp.CloserPeers = pb.RawPeerInfosToPBPeers(infos)
 		for _, cp := range resp.CloserPeers {
